@@ -52,6 +52,10 @@ type SliceV struct {
 }
 type mapEntry struct {
 	K, V Value
+	// Cell (event-order mode only): the entry of a map that existed at the fork lives in a shared
+	// object {present bool, value}, so that insert / lookup / delete / range by different threads
+	// communicate through the read-from machinery like any other shared memory
+	Cell *Object
 }
 type MapV struct {
 	Nil     bool
